@@ -66,6 +66,9 @@ func TestC15(t *testing.T) {
 			"announcements handled + availability / exchange calls; distinct = distinct (configuration, per-height outcome sequence); non-trivial = the "+
 			"height's history contains a failure, a duplicate or an out-of-window decision")
 	defer run.Finish()
+	defer run.WatchDeadlock("C15 block ingestion never returns (stable state: blocked on a lock): ", func(f string) bool {
+		return strings.Contains(f, "celestia-node/core.") || strings.Contains(f, "availability/full.") || strings.Contains(f, "celestia-node/store")
+	})()
 	seed := vkit.Seed()
 	rng := vkit.NewRNG(seed, "C15")
 	restore := c15reg.install()
